@@ -70,7 +70,7 @@ class IceDriver:
                     raise Divergence('LayeredIce.contains outside the stack', False, True)
             else:
                 exp_n = 1.3 + 0.1 * (want - 1)
-                if abs(n - exp_n) > 1e-12:
+                if not (abs(n - exp_n) <= 1e-12):
                     raise Divergence('LayeredIce%s.index(%g): layer' % ([tuple(x) for x in st_], z), exp_n, n)
                 if ice.layer_at_depth(z) is not layers[want - 1]:
                     raise Divergence('LayeredIce.layer_at_depth(%g)' % z, 'layer %d' % want, 'another layer')
@@ -102,7 +102,7 @@ class IceDriver:
                     for j, f in enumerate(FREQS if farr else [FREQS[0]]):
                         s = float(ice.attenuation_length(float(z), float(f)))
                         e = out[i, j] if (zarr and farr) else (out[i] if zarr else (out[j] if farr else float(out)))
-                        if abs(e - s) > 1e-9 * abs(s):
+                        if not (abs(e - s) <= 1e-9 * abs(s)):
                             raise Divergence('%s.attenuation_length entry (%d,%d) vs scalar evaluation' % (name, i, j), s, float(e))
 
     def inverse(self, c, last):
@@ -129,5 +129,5 @@ class IceDriver:
             if last['inv'] == 'inverted':
                 if not (lo - 1e-6 <= z <= hi + 1e-6) or abs(float(ice.index(min(max(z, lo), hi))) - n) > 1e-9:
                     raise Divergence(where + ': index(depth_with_index(n))', n, (z, float(ice.index(min(max(z, lo), hi)))))
-            if abs(za[0] - z) > 1e-9 * max(1.0, abs(z)) or abs(za[2] - z) > 1e-9 * max(1.0, abs(z)):
+            if not (abs(za[0] - z) <= 1e-9 * max(1.0, abs(z)) and abs(za[2] - z) <= 1e-9 * max(1.0, abs(z))):     # NaN-safe
                 raise Divergence(where + ': array vs scalar', z, za.tolist())
